@@ -8,6 +8,7 @@ Gen/ConstructTab.lean (import-free):
   * `urlPrefixes`, `fileExtensions`, `shellChars`, `heuristicsMaxLen` : the literals of `_markup_is_url`,
                           `_markup_resembles_filename` and of the guard in `BeautifulSoup.__init__`, read from the
                           AST of the live functions' source (they are locals, not attributes);
+  * `dammitRetriesOnEmpty` : whether the guard of UnicodeDammit's second pass is `if not u:` (AST of the live source);
   * `strictEncodeInHeuristics` : whether `_markup_resembles_filename` still encodes with the strict error handler;
   * field tables measured on the live objects by instrumentation (`__setattr__` spy + value snapshots):
       `resetAssigns`   — attributes of the BeautifulSoup object assigned by `reset()` (incl. `Tag.__init__`),
@@ -80,6 +81,24 @@ def heuristics_literals():
     except Exception:
         pass
     return out
+
+
+def dammit_retries_on_empty():
+    """Is the guard of UnicodeDammit's second pass `if not u:` (true: an empty decoding is retried with
+    errors="replace") or `if u is None:` (false)?"""
+    from bs4.dammit import UnicodeDammit
+    try:
+        t = _fn_ast(UnicodeDammit.__init__)
+        for n in ast.walk(t):
+            if isinstance(n, ast.If) and any(isinstance(b, ast.For) for b in n.body):
+                test = n.test
+                if isinstance(test, ast.UnaryOp) and isinstance(test.op, ast.Not):
+                    return True
+                if isinstance(test, ast.Compare) and isinstance(test.ops[0], ast.Is):
+                    return False
+    except Exception:
+        pass
+    return True
 
 
 def _snap(v):
@@ -189,6 +208,8 @@ def gen_construct():
     t += f"def heuristicsMaxLen : Nat := {lit['maxlen'] if lit['maxlen'] is not None else 0}\n"
     t += f"/-- `markup.encode(\"utf8\")` in `_markup_resembles_filename` without an error handler -/\n"
     t += f"def strictEncodeInHeuristics : Bool := {'true' if lit['strict'] else 'false'}\n"
+    t += "/-- the second (errors=replace) pass of UnicodeDammit is entered on an empty decoding too (`if not u:`) -/\n"
+    t += f"def dammitRetriesOnEmpty : Bool := {'true' if dammit_retries_on_empty() else 'false'}\n"
     t += f"def resetAssigns : List String := {lean_string_list(ft['reset'])}\n"
     t += f"def headerAssigns : List String := {lean_string_list(ft['header'])}\n"
     t += f"def attemptBuilderAssigns : List String := {lean_string_list(ft['builder'])}\n"
